@@ -419,9 +419,9 @@ theorem malvar_constant_level (cfa : Cfa) (m n : ℕ) (v : Rat) (ch : Chan) (R C
 spelling of the average in the source) -/
 theorem gen_deinterlace {K : Type} [Field K] (g1 g2 : K) : Generated.C16.deinterlaceGreen g1 g2 = (g1 + g2) / 2 := by
   first
-    | (simp only [Generated.C16.deinterlaceGreen, Model.C16.deinterlaceGreen, Num.ofInt]; push_cast; ring)
-    | (simp only [Generated.C16.deinterlaceGreen, Model.C16.deinterlaceGreen, Num.ofInt, Num.ofFrac]; push_cast; ring)
-    | (simp [Generated.C16.deinterlaceGreen, Model.C16.deinterlaceGreen, Num.ofInt]; ring)
+    | (simp only [Generated.C16.deinterlaceGreen, Model.C16.deinterlaceGreen, Num.ofInt]; push_cast; ring; done)
+    | (simp only [Generated.C16.deinterlaceGreen, Model.C16.deinterlaceGreen, Num.ofInt, Num.ofFrac]; push_cast; ring; done)
+    | (simp only [Generated.C16.deinterlaceGreen, Model.C16.deinterlaceGreen, Num.ofInt, Num.ofFrac]; push_cast; field_simp; ring)
 
 /-- `demosaic_deinterlace` of a mosaic assembled from four planes returns the red and the blue plane sample for sample
 (raw samples, no crosstalk) and the mean of the two green planes, both layouts — in particular equal greens keep
@@ -509,6 +509,90 @@ example (cfa : Cfa) (α β : Rat) (col : Chan → Rat) (ch : Chan) :
     malvar Generated.C16.siteSlices (Generated.C16.malvarSrc cfa) 5 5
       (rampMosaic (Generated.C16.recompPlane cfa) α β col) ch 2 2 = α * (2 : ℕ) + β * (2 : ℕ) + col ch :=
   malvar_affine_exact cfa 5 5 α β col ch 0 0 (by norm_num) (by norm_num)
+
+/-- TRANSLATED TERMS replacing recogniser facts: the shape of the intermediate view of `bindown` (`(s//f, f, …)` interleaved),
+the broadcast shape of `tile`, the accepted `mode` / `scaling` spellings with what each does, the shape `expose` returns
+(`(frames, *image.shape)`, squeezed for one frame) and the boundary rule of the Malvar filters are the modelled ones -/
+theorem gen_views (frames : ℕ) (shape : List ℕ) (s f : List Int) :
+    Generated.C16.binViewShape s f = Model.C16.binViewShape s f ∧
+    Generated.C16.tileViewShape s f = Model.C16.tileViewShape s f ∧
+    Generated.C16.binModes = Model.C16.binModes ∧ Generated.C16.tileModes = Model.C16.tileModes ∧
+    Generated.C16.exposeOutShape frames shape = Model.C16.exposeOutShape frames shape ∧
+    Generated.C16.malvarBoundary = BMode.reflect := by
+  have h : Generated.C16.binOutLen = Model.C16.binOutLen := by funext a b; exact (gen_bin a b 0).1
+  refine ⟨?_, ?_, ?_, ?_, ?_, ?_⟩
+  · first | rfl | (simp only [Generated.C16.binViewShape, Model.C16.binViewShape, h])
+  · first | rfl | (simp only [Generated.C16.tileViewShape, Model.C16.tileViewShape])
+  · first | rfl | decide
+  · first | rfl | decide
+  · first | rfl | (unfold Generated.C16.exposeOutShape Model.C16.exposeOutShape; split_ifs <;> simp)
+  · first | rfl | decide
+
+/-- entries of `tuple(chain(*zip(a, b)))`: `a` at even, `b` at odd positions -/
+theorem interleave_getElem? {α : Type} (a b : List α) (h : a.length = b.length) (i : ℕ) :
+    (interleave a b)[2 * i]? = a[i]? ∧ (interleave a b)[2 * i + 1]? = b[i]? := by
+  induction a generalizing b i with
+  | nil => cases b <;> simp [interleave] at *
+  | cons x xs ih =>
+    cases b with
+    | nil => simp at h
+    | cons y ys =>
+      cases i with
+      | zero => simp [interleave]
+      | succ i =>
+        have := ih ys (by simpa using h) i
+        simp only [interleave, show 2 * (i + 1) = 2 * i + 1 + 1 from by ring, show 2 * i + 1 + 1 + 1 = (2 * i + 1) + 1 + 1 from rfl,
+          List.getElem?_cons_succ]
+        exact this
+
+/-- `tuple(chain(*zip(a, b)))` has twice the length -/
+theorem interleave_length {α : Type} (a b : List α) (h : a.length = b.length) : (interleave a b).length = 2 * a.length := by
+  induction a generalizing b with
+  | nil => cases b <;> simp [interleave] at *
+  | cons x xs ih =>
+    cases b with
+    | nil => simp at h
+    | cons y ys => simp only [interleave, List.length_cons, ih ys (by simpa using h)]; ring
+
+/-- the generated views put the bin factors exactly on the odd axes — the axes `range(1, 2·ndim, 2)` that `bindown`
+reduces over (`gen_bin`) and that `tile` broadcasts over — and the output lengths / input lengths on the even axes, for every
+number of axes, shape and factor list -/
+theorem bin_tile_view_axes (shape f : List Int) (h : shape.length = f.length) (i : ℕ) :
+    (Generated.C16.binViewShape shape f).length = 2 * shape.length ∧
+    (Generated.C16.binViewShape shape f)[2 * i + 1]? = f[i]? ∧
+    (Generated.C16.binViewShape shape f)[2 * i]? = (List.zipWith Generated.C16.binOutLen shape f)[i]? ∧
+    (Generated.C16.tileViewShape shape f).length = 2 * shape.length ∧
+    (Generated.C16.tileViewShape shape f)[2 * i + 1]? = f[i]? ∧ (Generated.C16.tileViewShape shape f)[2 * i]? = shape[i]? := by
+  have hb : Generated.C16.binOutLen = Model.C16.binOutLen := by funext a b; exact (gen_bin a b 0).1
+  rw [(gen_views 0 [] shape f).1, (gen_views 0 [] shape f).2.1, hb]
+  have hz : (List.zipWith Model.C16.binOutLen shape f).length = f.length := by simp [h]
+  have hl := interleave_length (List.zipWith Model.C16.binOutLen shape f) f hz
+  refine ⟨by simp only [Model.C16.binViewShape, hl, hz, h], (interleave_getElem? _ f hz i).2, (interleave_getElem? _ f hz i).1,
+    interleave_length shape f h, (interleave_getElem? shape f h i).2, (interleave_getElem? shape f h i).1⟩
+
+/-- the exposure has `frames × Π shape` samples, the shape of the image itself for one frame and `(frames, *shape)` otherwise -/
+theorem expose_out_shape (frames : ℕ) (shape : List ℕ) :
+    (Generated.C16.exposeOutShape frames shape).prod = frames * shape.prod ∧ Generated.C16.exposeOutShape 1 shape = shape ∧
+    (frames ≠ 1 → Generated.C16.exposeOutShape frames shape = frames :: shape) := by
+  simp only [(gen_views _ shape [] []).2.2.2.2.1, Model.C16.exposeOutShape]
+  refine ⟨?_, by simp, fun h => by simp [h]⟩
+  split_ifs with h1 <;> simp [h1]
+
+/-- interior / border split of the Malvar filters: two samples or more from the border the filtered image does not depend
+on the boundary rule at all (any index-extension rule that is the identity inside the array gives the value of `reflect`);
+only the two-sample frame is governed by the generated `malvarBoundary = reflect`, which the correspondence compares -/
+theorem malvar_interior_any_boundary (bidx : ℕ → ℤ → ℕ) (hb : ∀ n k : ℕ, k < n → bidx n (k : ℤ) = k)
+    (m n : ℕ) (img : ℕ → ℕ → Rat) (k : List (List Rat)) (div : Rat) (R C : ℕ) (hRm : R + 4 < m) (hCn : C + 4 < n) :
+    convolve5B bidx m n img k div (R + 2) (C + 2) = convolve5 m n img k div (R + 2) (C + 2) := by
+  rw [convolve5_interior m n img k div R C hRm hCn]
+  unfold convolve5B
+  refine sumTo_congr 5 _ _ fun a ha => sumTo_congr 5 _ _ fun b hb' => ?_
+  have e1 : (((R + 2 : ℕ) : ℤ) + 2 - a) = ((R + (4 - a) : ℕ) : ℤ) := by omega
+  have e2 : (((C + 2 : ℕ) : ℤ) + 2 - b) = ((C + (4 - b) : ℕ) : ℤ) := by omega
+  rw [e1, e2, hb m _ (by omega), hb n _ (by omega)]
+/-- non-vacuity: a 6 × 4 array binned by (3, 2) is viewed as (2, 3, 2, 2); `reflect` itself is the identity inside the array -/
+example : Generated.C16.binViewShape [6, 4] [3, 2] = [2, 3, 2, 2] ∧ Generated.C16.tileViewShape [2, 2] [3, 2] = [2, 3, 2, 2] := by decide
+example : ∀ n k : ℕ, k < n → reflectIdx n (k : ℤ) = k := fun n k h => by unfold reflectIdx; split_ifs <;> omega
 
 /-- safe white balance (UNIT nominal gains only — with other gains `safe` promises nothing and nothing is claimed):
 after dividing the gains by the generated limiting ratio, a plane scaled with unit
